@@ -169,6 +169,29 @@ func TestC10(t *testing.T) {
 		one(tm)
 	}
 	r.Label("boundaries")
+	// ---- long messages: 9- and 5-octet dates at every alignment to the decoder's buffer refills
+	{
+		rs := seedFor("C10stream")
+		for pad := 0; pad < 10; pad++ {
+			for _, whole := range []bool{false, true} {
+				l := make([]time.Time, 1100)
+				for i := range l {
+					if whole {
+						l[i] = time.Unix(int64(int32(rs.next())), 0)
+					} else {
+						l[i] = time.UnixMilli(minMsC10 + int64(rs.next()%uint64(maxMsC10-minMsC10))).Add(time.Millisecond)
+					}
+				}
+				c := &zoo.TimeCarrier{T: l[0], L: l, M: map[string]time.Time{mkString(0, pad, 0, 0, 1): l[1]}}
+				if stage, err, _ := roundTrip(c); err != nil {
+					directFail(t, "C10", map[string]interface{}{"stream_pad": fmt.Sprint(pad), "whole_seconds": whole}, "C10 list of %d timestamps after %d pad characters: %s: %v", len(l), pad, stage, err)
+				}
+				r.EvalN(int64(len(l)))
+				r.NonTrivial(av.Hash(fmt.Sprint("stream", pad, whole)))
+			}
+		}
+		r.Label("long-messages-across-buffer-refills")
+	}
 	rng := seedFor("C10")
 	n := 30000
 	if rec.Thorough() {
